@@ -330,6 +330,51 @@ func (x *run) checkC11() *Failure {
 	return nil
 }
 
+// checkC11Deps is the part of the order rule that stays unambiguous when
+// constructions overlap: no instance is closed while an instance of the same
+// owner that received it as a dependency is still open.
+func (x *run) checkC11Deps() *Failure {
+	owner := func(e *kit.Entry) int {
+		if x.M.Regs[e.Reg].Life == kit.Singleton {
+			return -1
+		}
+		return e.ScopeTag
+	}
+	once := func(e *kit.Entry) (int64, bool) {
+		if e == nil || e.Inv == nil || e.Inv.Outcome != 1 || !kit.IsDisposable(e.Impl) {
+			return 0, false
+		}
+		cs := e.CloseSeqs()
+		if len(cs) != 1 {
+			return 0, false // C10's business
+		}
+		return cs[0], true
+	}
+	for _, inv := range x.W.AllInvs() {
+		if inv.Outcome != 1 {
+			continue
+		}
+		for _, out := range inv.Outs {
+			oc, ok := once(out)
+			if !ok {
+				continue
+			}
+			for _, a := range inv.Args {
+				for _, dep := range a.Entries {
+					dc, ok := once(dep)
+					if !ok || owner(dep) != owner(out) {
+						continue
+					}
+					if dc < oc {
+						return fail("C11", "dependents-first", lifeName(x.M.Regs[dep.Reg].Life)+"<-"+lifeName(x.M.Regs[out.Reg].Life), "%v was closed at %d while %v, which received it as a dependency, was still open (closed at %d)", dep, dc, out, oc)
+					}
+				}
+			}
+		}
+	}
+	return nil
+}
+
 func TestC11Order(t *testing.T) {
 	col := evid.New("C11", "histories", "configurations biased to disposable services forming dependency chains over the three lifetimes x sequential histories (scope trees of depth<=3, child contexts both derived from the parent's and independent) ending in scope and provider closes; oracle from global sequence stamps: per owner closes are the exact reverse of constructor completions (outputs of one invocation tie), every close in a descendant precedes every close of an ancestor's own instances, every scope-owned close precedes every singleton close; non-trivial = an owner with >=3 disposables, or disposables on >=2 levels of a scope tree of depth>=2")
 	defer col.Flush()
